@@ -250,9 +250,22 @@ def answerQuery (w : World) (q : List String) : Option String :=
     | some del, some v, some d =>
       some (match qDelegation w del v d with
         | .ok (s, b) => s!"{s} {b}"
-        | .error (.err c) => "err " ++ c
+        | .error (.err _) => "err"
         | .error (.panic _) => "panic")
     | _, _, _ => none
+  | ["bdel", del, v, d] =>
+    match del.toNat?, v.toNat?, d.toNat? with
+    | some del, some v, some d =>
+      some (match bDelegation w del v d with
+        | .ok b => s!"{b}"
+        | .error (.err _) => "err"
+        | .error (.panic _) => "panic")
+    | _, _, _ => none
+  | ["supplyof", d] =>
+    match d.toNat? with
+    | some d => some s!"{qSupplyOf w d}"
+    | none => none
+  | ["totalsupply"] => some (rRows ((qTotalSupply w).map fun p => s!"{p.1} {p.2}"))
   | _ => none
 
 def rResult : Except Err Unit → String
